@@ -34,7 +34,13 @@ enum CancelHow {
 }
 
 fn spell(ms: u64, rng: &mut Rng) -> String {
-    match rng.below(6) {
+    match rng.below(10) {
+        // minutes (named by the property), hours and days (documented by parse_duration_to_milliseconds): enough
+        // decimals that the platform's rounding to whole milliseconds gives back exactly `ms`
+        6 => format!("{:.7}m", ms as f64 / 60000.0),
+        7 => format!("{:.7}M", ms as f64 / 60000.0),
+        8 => format!("{:.9}h", ms as f64 / 3600000.0),
+        9 => format!("{:.11}d", ms as f64 / 86400000.0),
         0 => format!("{}ms", ms),
         1 => format!("{}s", ms as f64 / 1000.0),
         2 => {
@@ -63,6 +69,8 @@ struct Outcome {
     decided_cancels: u64,
     undecided_cancels: u64,
     delivered: u64,
+    /// unit spellings of the delays that were delivered not early (one entry per delivered event)
+    units_delivered: Vec<String>,
     xml: String,
     timeline: Vec<String>,
 }
@@ -196,6 +204,7 @@ fn scenario(rng: &mut Rng, thorough: bool, dm: &str) -> Outcome {
         decided_cancels: 0,
         undecided_cancels: 0,
         delivered: 0,
+        units_delivered: vec![],
         xml: xml.clone(),
         timeline: vec![],
     };
@@ -308,6 +317,7 @@ fn scenario(rng: &mut Rng, thorough: bool, dm: &str) -> Outcome {
         let effective_cancel = s.cancel.is_some() && s.cancel != Some(CancelHow::OtherSession);
         if let Some((t, val, _)) = arrivals.first() {
             out.delivered += 1;
+            out.units_delivered.push(s.spelling.trim_start_matches(|c: char| c.is_ascii_digit() || c == '.').to_string());
             // not early (1 ms granularity of the timer)
             let gap = ms(*t - sb);
             if gap + 1.0 < s.delay_ms as f64 {
@@ -520,6 +530,9 @@ pub fn run(args: &Args, rep: &mut Report) {
         let o = scenario(&mut rng, args.thorough(), dm);
         rep.evaluations += 1;
         rep.count("delayed_events_delivered", o.delivered);
+        for u in &o.units_delivered {
+            rep.count(&format!("delivered_with_unit_{}", u), 1);
+        }
         rep.count("decided_due_order_pairs", o.decided_order_pairs);
         rep.count("undecided_due_order_pairs", o.undecided_order_pairs);
         rep.count("decided_cancels", o.decided_cancels);
